@@ -41,7 +41,7 @@ def run(model, res, tier):
     purity.check_memo(res, c, 'R5', c.reach, 'a function used during evaluation')
 
 
-def _r1(model, res, c):
+def _r1(model, res, c, R='R1'):
     cg = c.cg
     sites = []
     for k, (m, f) in sorted(cg.funcs.items()):
@@ -54,8 +54,8 @@ def _r1(model, res, c):
         kw = [x for x in n.keywords if x.arg == 'lexer']
         site = fmt(k)
         if not kw:
-            res.ob('R1', site, src(n), False, 'no lexer= argument')
-            res.violation('R1', '%s:%s:yacc-parse-without-lexer' % k, m.where(n),
+            res.ob(R, site, src(n), False, 'no lexer= argument')
+            res.violation(R, '%s:%s:yacc-parse-without-lexer' % k, m.where(n),
                           'yacc parse() is called without lexer=: ply then uses the process-global lexer (the last one built), so '
                           'nested or concurrent evaluations - on other parsers or this one - consume each other\'s token stream',
                           case=src(n), func=k[1])
@@ -77,9 +77,9 @@ def _r1(model, res, c):
                        'listener calling parse on the same parser) re-inputs it and the outer evaluation loses its remaining tokens')
             else:
                 why = 'lexer= is not a clone of the instance lexer nor a freshly built lexer (%s)' % src(v)
-        res.ob('R1', site, src(n), ok, why)
+        res.ob(R, site, src(n), ok, why)
         if not ok:
-            res.violation('R1', '%s:%s:yacc-parse-shared-lexer' % k, m.where(n), why, case=src(n), func=k[1])
+            res.violation(R, '%s:%s:yacc-parse-shared-lexer' % k, m.where(n), why, case=src(n), func=k[1])
 
 
 def _persistent_classes(c):
